@@ -60,7 +60,8 @@ fn base(t: &mut Tape, tapes: &[Vec<u32>], cfg: Cfg, reqs: Vec<Req>) -> PairCase 
 fn gen_settings(t: &mut Tape) -> Vec<(u16, u32)> {
     let n = t.below(4);
     (0..n)
-        .map(|_| match t.below(6) {
+        .map(|_| match t.below(7) {
+            6 => (2u16, *t.pick(&[0u32, 0, 1])),
             0 => (1u16, *t.pick(&[0u32, 100, 4096, 65536])),
             1 => (3, *t.pick(&[1u32, 5, 100, u32::MAX])),
             2 => (4, *t.pick(&[0u32, 1, 1000, 65535, 100_000, 0x7fff_ffff])),
@@ -107,6 +108,16 @@ pub fn gen_acks_server(tapes: &[Vec<u32>]) -> RawCase {
             _ => {
                 let id = next_id;
                 next_id += 2;
+                if t.bool() {
+                    // a handler that pushes (at once or a little later): whether it may depends on the ENABLE_PUSH value
+                    // acknowledged by then
+                    let mut r = default_req(id);
+                    r.resp_delay = *t.pick(&[0usize, 5, 30]);
+                    let mut presp = empty_msg();
+                    presp.eos_on_head = true;
+                    r.pushes = vec![Push { resp: presp, status: 200, reader: Reader::Eager, abandon: false }];
+                    reqs.push(r);
+                }
                 script.push(hdr(id, "GET", true));
             }
         }
@@ -221,6 +232,34 @@ impl Engine for AcksEngine {
         common_raw_oracles(case, &rr, &an, &mut out);
         check_c14(case, &rr, &an.tap, &mut out);
         reattribute_to_c14(&mut out);
+        // PUSH_PROMISE after ENABLE_PUSH=0 was acknowledged: told apart by when the application's push_request was
+        // accepted — before the acknowledgement was written (the frame was already queued) or after it
+        let e = case.h2_side;
+        let mut refined: Vec<Violation> = Vec::new();
+        for v in out.violations.iter().filter(|v| v.signature == "C14/acknowledged-settings-not-in-force/C04/push-after-disabled") {
+            // the last ACK E wrote before the offending frame
+            let mut ack_t = None;
+            let mut which = "push-request-accepted-after-the-acknowledgement";
+            for f in an.tap.frames.iter().filter(|f| f.from == e) {
+                match &f.frame {
+                    Ok(Frame::Settings { ack: true, .. }) => ack_t = Some(f.t_w0),
+                    Ok(Frame::Push { promised, .. }) => {
+                        let accepted = rr.run.events.iter().find(|ev| ev.side == e && matches!(&ev.api, Api::SentHead { kind: "push-request", stream, .. } if stream == promised)).map(|ev| ev.step);
+                        if let (Some(a), Some(t)) = (accepted, ack_t) {
+                            if a < t {
+                                which = "push-promise-queued-before-the-acknowledgement";
+                            }
+                        }
+                    }
+                    _ => {}
+                }
+            }
+            refined.push(Violation::new("C14", &v.oracle, format!("C14/push-promise-after-acknowledged-enable-push-0/{}", which), v.detail.clone()));
+        }
+        if !refined.is_empty() {
+            out.violations.retain(|v| v.signature != "C14/acknowledged-settings-not-in-force/C04/push-after-disabled");
+            out.violations.extend(refined);
+        }
         out.note = format!("{} wire frames, end={:?}, script_done={}", an.tap.frames.len(), rr.run.end, rr.obs.script_done);
         out
     }
